@@ -22,10 +22,14 @@ Records (whitespace tokens):
   vbounds <tag> <view> lb ub
   nogood <tag> <atoms>             -> no solution satisfies all atoms
   infer <tag> <cons> <atoms:premises> none|<atom>
+  minfer <tag> <atoms:premises> none|<atom>  -> premises → conclusion holds in every solution of the model
+  valsel <name> x <n v*n> <atom>   -> the decision of a value selector is in the model's support
   panic|nonterm|partial|bad|branchviolation …   -> FAIL (harness-side observation of a failure)
 -/
 import Pumpkin.Spec.Basic
 import Pumpkin.Check.Oracle
+import Pumpkin.Model.Predicate
+import Pumpkin.Model.Branching
 import Driver.Parse
 
 open Pumpkin Driver
@@ -44,16 +48,11 @@ def strictly (maximise : Bool) : List Int → Bool
   | a :: b :: rest => (if maximise then decide (a < b) else decide (b < a)) && strictly maximise (b :: rest)
   | _ => true
 
-/-- two atoms over the same variable that no integer satisfies together -/
-def exclusive (p q : Atom) : Bool :=
-  p.var == q.var &&
-    let lo := min p.bound q.bound - 2
-    let n := (max p.bound q.bound + 2 - lo).toNat + 1
-    (List.range n).all (fun i => !(p.holdsVal (lo + i) && q.holdsVal (lo + i)))
-
+/-- the assumption list contains a pair which `is_mutually_exclusive_with` (model: `Atom.mutex`,
+exact by `Atom.mutex_iff`) reports as exclusive -/
 def hasExclusivePair : List Atom → Bool
   | [] => false
-  | p :: ps => ps.any (exclusive p) || hasExclusivePair ps
+  | p :: ps => ps.any (fun q => p.mutex q) || hasExclusivePair ps
 
 def hasNegPair (as : List Atom) : Bool := as.any (fun p => as.contains p.neg)
 
@@ -182,7 +181,29 @@ def respond (st : St) (line : String) : St × Option String :=
         | _ => (st, some "FAIL infer unparsed")
       | none => (st, some "FAIL infer unparsed")
     | none => (st, some "FAIL infer unparsed")
-  | "panic" :: _ | "nonterm" :: _ | "partial" :: _ | "bad" :: _ | "branchviolation" :: _ =>
+  | "minfer" :: tag :: rest =>
+    -- entailed by the model as a whole: no solution satisfies the premises and falsifies the conclusion
+    match pList pAtom rest with
+    | some (prem, ["none"]) =>
+      (st, some (if checkNogood st.sols prem then s!"ok minfer {tag}" else s!"FAIL minfer {tag} premises-hold-in-a-solution"))
+    | some (prem, rest) =>
+      match pAtom rest with
+      | some (q, []) =>
+        (st, some (if checkNogood st.sols (q.neg :: prem) then s!"ok minfer {tag}" else s!"FAIL minfer {tag} cuts-a-solution"))
+      | _ => (st, some "FAIL minfer unparsed")
+    | none => (st, some "FAIL minfer unparsed")
+  | "valsel" :: name :: x :: rest =>
+    match x.toNat?, pList pInt rest with
+    | some x, some (vs, rest) =>
+      match pAtom rest with
+      | some (p, []) =>
+        let sup := Pumpkin.Branching.support name x vs
+        if sup.isEmpty then (st, some s!"FAIL valsel {name} unknown-selector")
+        else if sup.contains p then (st, some s!"ok valsel {name}")
+        else (st, some s!"FAIL valsel {name} decision-differs-from-model domain={vs} model={repr sup}")
+      | _ => (st, some "FAIL valsel unparsed")
+    | _, _ => (st, some "FAIL valsel unparsed")
+  | "panic" :: _ | "nonterm" :: _ | "partial" :: _ | "bad" :: _ | "branchviolation" :: _ | "hang" :: _ =>
     (st, some s!"FAIL {line}")
   | _ => (st, some s!"FAIL unparsed {line}")
 
